@@ -112,6 +112,9 @@ class JSONDriver(BaseDriver):
     async def insert(self, collection: str, record: Record) -> Id:
         coll = self._data.setdefault(collection, {})
 
+        # Never keep references to the caller's objects
+        record = copy.deepcopy(record)
+
         id_ = record.get('id')
         if id_ is None:
             id_ = self._find_next_id(coll)
@@ -135,7 +138,7 @@ class JSONDriver(BaseDriver):
 
             record = coll.get(id_)
             if record is not None and self._filter_matches(record, filt):
-                record.update(record_part)
+                record.update(copy.deepcopy(record_part))
                 modified_count = 1
         else:  # no single specific id in filt
             for id_, record in coll.items():
@@ -144,7 +147,7 @@ class JSONDriver(BaseDriver):
                     continue
 
                 # Actually update the record
-                record.update(record_part)
+                record.update(copy.deepcopy(record_part))
                 modified_count += 1
 
         self._save(self._unindex(self._data))
@@ -157,7 +160,7 @@ class JSONDriver(BaseDriver):
         if coll.get(id_) is None:
             return False  # no record found, no replacing
 
-        record = dict(record)
+        record = copy.deepcopy(record)
 
         # Never change record id with replace
         record['id'] = id_
